@@ -90,6 +90,12 @@ def emptyRequest (ds : DistSem) (p : Prog) (key : KeyPath) (t : Trace) (args : V
     (changed : Bool := false) : Except Err Res :=
   if noChange then .ok ⟨t, 0, [], true⟩ else update ds p key t [] args changed
 
+/-- `DiffAnnotate(request, argdiff_fn, retdiff_fn).edit`: the inner request's edit on the mapped
+    argument diffs, its return diff mapped afterwards (the model carries values, not tags: the maps act
+    on the argument tuple and on the result). -/
+def diffAnnotate (argFn : Val → Val) (retFn : Res → Res) (edit : Val → Except Err Res) (args : Val) : Except Err Res :=
+  (edit (argFn args)).map retFn
+
 /-! ### StaticRequest -/
 
 /-- One entry of a `StaticRequest`: the request applied at an address of a static function. -/
